@@ -57,7 +57,9 @@ const (
 	c18KCurIdx // index of the current entry; i counts the increments since the iteration began
 	c18KTuple
 	c18KFunc
-	c18KFindFn // the method value <receiver>.Tags.Find
+	c18KFindFn   // the method value <receiver>.Tags.Find
+	c18KMap      // a map whose contents are one composite literal (lookup table)
+	c18KFuncDecl // a declared function of the package used as a value
 )
 
 type c18Org int
@@ -84,7 +86,9 @@ type c18Val struct {
 	elems []c18Val
 	lit   *ast.FuncLit
 	fr    *c18Frame
-	note  string // why the value is unknown
+	cl    *ast.CompositeLit // c18KMap: the literal that is the map's only source
+	fdecl *ast.FuncDecl     // c18KFuncDecl: a function of the package used as a value
+	note  string            // why the value is unknown
 }
 
 func c18Unk(format string, args ...interface{}) c18Val {
@@ -92,7 +96,7 @@ func c18Unk(format string, args ...interface{}) c18Val {
 }
 
 func c18ValEq(a, b c18Val) bool {
-	if a.k != b.k || a.s != b.s || a.i != b.i || a.b != b.b || a.org != b.org || a.lit != b.lit || len(a.elems) != len(b.elems) {
+	if a.k != b.k || a.s != b.s || a.i != b.i || a.b != b.b || a.org != b.org || a.lit != b.lit || a.cl != b.cl || a.fdecl != b.fdecl || len(a.elems) != len(b.elems) {
 		return false
 	}
 	for i := range a.elems {
